@@ -17,6 +17,9 @@ type SubscriptionService struct {
 	// pub sub stuff
 	Mu   sync.Mutex
 	Subs map[uint32]*Subscription
+	// lastSubID is the most recently assigned subscription id. Ids are never
+	// reused while the server runs, so an id handed out is never still in use.
+	lastSubID uint32
 }
 
 // get rid of all references to a subscription and all monitored items that are pointed at this subscription.
@@ -55,7 +58,9 @@ func (s *SubscriptionService) CreateSubscription(sc *uasc.SecureChannel, r ua.Re
 	s.Mu.Lock()
 	defer s.Mu.Unlock()
 
-	newsubid := uint32(len(s.Subs)) + 1
+	// len(s.Subs)+1 would hand out an id that is still in use after a delete
+	s.lastSubID++
+	newsubid := s.lastSubID
 
 	if s.srv.cfg.logger != nil {
 		s.srv.cfg.logger.Info("New Sub %d for %v", newsubid, sc.RemoteAddr())
